@@ -226,6 +226,18 @@ def make_interp_factory(case, rep, order, cplx):
     return mk
 
 
+def identically_zero(case, form, order):
+    """the form's value vanishes for random arguments and data on two cells"""
+    try:
+        for rep in range(2):
+            vals = form_values(form, make_interp_factory(case, rep, order, case.get("cplx", False))(), None)
+            if any(np.any(np.abs(x) > 1e-12) for x in vals.values()):
+                return False
+        return True
+    except Discard:
+        return False
+
+
 def check_parts(case, b, form, exprs):
     import ufl
 
@@ -258,6 +270,10 @@ def check_parts(case, b, form, exprs):
     except RecursionError:
         raise
     except Exception as ex:
+        if identically_zero(case, form, order):
+            # (a form whose value is zero although it is not a literal zero -- variable(0)*u*v -- degenerates inside
+            #  action/adjoint: the documented non-finding of DESIGN 11)
+            raise Discard("form is identically zero")
         raise Violation(f"{op} (mixed function space) raised {type(ex).__name__}: {str(ex)[:300]}", {"kind": "raised:" + exc_bucket(ex)})
     nonzero = False
     for rep in range(2):
@@ -396,6 +412,8 @@ def check_case(case):
         if case.get("mixedlist") and isinstance(ex, ValueError) and "list_tensors with non-zero components providing fewer arguments" in str(ex):
             # the documented explicit refusal of list tensors with components of different arity
             return {"nontrivial": False, "labels": ["mixed-list:refused", "op:" + ("lhs" if op == "system" else op)]}
+        if op in ("action", "action_given", "adjoint", "energy_norm") and identically_zero(case, form, order):
+            raise Discard("form is identically zero")
         raise Violation(f"{op} raised {type(ex).__name__}: {str(ex)[:300]}", {"kind": "raised:" + exc_bucket(ex)})
     nonzero = False
     for rep in range(2):
